@@ -251,3 +251,8 @@ func vhNameLess(a, b RawDirEnt) bool {
 // of another size class (C08).
 func VH_C03_CfbPayloadStreamKept() { VH_C18_SignatureInsertWholeFile() }
 func VH_C08_CfbSignatureReplaced() { VH_C18_SignatureInsertWholeFile() }
+
+// registered under C01 as well: a signature stream of any size class that
+// relic stores must read back through relic's own reader (what MSI
+// verification does first).
+func VH_C01_MsiSignatureStreamReadsBack() { VH_C18_SignatureInsertWholeFile() }
